@@ -667,7 +667,7 @@ class Executor(object):
             successful = True
             for run in self._runs:
                 run.report_job_completed(self._runs)
-                if run.is_failed:
+                if run.completed_invocations < run.invocations:
                     successful = False
             return successful or self._include_faulty
         finally:
